@@ -24,7 +24,7 @@ func Run(c *lib.Ctx) {
 	c.Assumptions = []string{
 		"exit races (race.go): that AddExitHook is atomic with respect to Exit (one step in Uniflow.Local / PortMaps / AgentProc) is tied to the code by C04's regenerated process.go facts (Props/C05Tie.lean) and searched for failing inputs by brute force – 3–5 hook-registering operations and Exit released together behind a spin barrier on >= 4 CPUs, 30k trials quick / 300k thorough; a window narrower than the scheduler can hit in that many trials would be missed",
 		"Go's sync.Mutex / RWMutex / channels behave as the atomic-step semantics of Uniflow.Local (a critical section is one step; RLock sections are atomic)",
-		"user call-outs (initialisers, store hooks, foreign exit hooks) terminate and do not call back into the same Local",
+		"user call-outs (initialisers, store hooks, foreign exit hooks) terminate; re-entry is NOT assumed away: the store hook with id 100 parks inside AddStoreHook's call-out (yield site 8) and there performs Load / Keys / Store / Delete on the same Local or Exit of the process on the same goroutine (model: a helper thread runs the operation while the caller sits at ashCb – justified by C05.hooks_run_unlocked and the regenerated-facts tie C05.local_calls_out_unlocked); an initialiser re-entering LoadOrStore for its own process is outside (it waits for its own lazy mutex, like sync.Once)",
 		"the verif yield hook of pkg/process is called exactly at the five documented sites and nowhere under a lock",
 		"goroutine identity in the harness is read from runtime.Stack's header line",
 		"agent (C05.agent_forgets_exited): the events fed to Uniflow.AgentProc are the harness tap's log – `accept p` from an open hook installed before Agent.Load, `hook p` from an exit hook registered before the agent's (runs right after it), `inb`/`outb` from packet hooks running just before the agent's under the same endpoint lock, `term p` before Process.Exit; only the key sets of Agent.processes / Agent.frames are compared (at rest they do not depend on the interleaving of different endpoints)",
